@@ -117,9 +117,12 @@ def gen(tier, rng):
 
 
 def coq_expr(s, r):
-    if s.meta.get("poisoned"):
-        return f"check_C13p ({s.coq(*r['adr'])}) {common.obs_list(r)}"
-    return f"check_C13 ({s.coq(*r['adr'])}) {common.obs_list(r)}"
+    chk = "check_C13p" if s.meta.get("poisoned") else "check_C13"
+    ob = common.obs_list(r)
+    # a try that "leaves the hold state as it was" issues no release of a lock it does not hold (the auditing lock only
+    # flags such a release; a real raw lock would change state)
+    return (f"(let v := {chk} ({s.coq(*r['adr'])}) {ob} in let x := no_bad_release {ob} in "
+            f"mkv (v_strict v) (v_proj v) (v_mon v && x) (v_monk v && x))")
 
 
 def classify(s, r):
